@@ -191,7 +191,8 @@ class WaitUntilDecoratorManager(DecoratorManager):
         self.timeout_decorator = None
         if (timeout := kwargs.get("timeout")) is not None:
             to_dec = DecoratorRegistry._decorators.get("time_trigger")
-            self.timeout_decorator = to_dec([f"once(now + {timeout}s)"], {})
+            # (a timeout that has already passed is a timeout now)
+            self.timeout_decorator = to_dec([f"once(now + {max(timeout, 0)}s)"], {})
             self.add(self.timeout_decorator)
 
     async def dispatch(self, data: DispatchData) -> None:
